@@ -2,13 +2,26 @@ use crate::utils::pckg;
 use crate::utils::state::{get_as_string, get_handles_sub_state};
 use duckscript::types::command::{Command, CommandInvocationContext, CommandResult};
 use duckscript::types::runtime::StateValue;
-use java_properties::write;
+use encoding_rs::UTF_8;
+use java_properties::{PropertiesError, PropertiesWriter};
 use std::collections::HashMap;
 use std::str;
 
 #[cfg(test)]
 #[path = "./mod_test.rs"]
 mod mod_test;
+
+/// The output is a text value and not a file, so it is written as UTF-8.
+fn write(
+    buffer: &mut Vec<u8>,
+    properties: &HashMap<String, String>,
+) -> Result<(), PropertiesError> {
+    let mut writer = PropertiesWriter::new_with_encoding(buffer, UTF_8);
+    for (key, value) in properties {
+        writer.write(key, value)?;
+    }
+    writer.finish()
+}
 
 #[derive(Clone)]
 pub(crate) struct CommandImpl {
